@@ -183,6 +183,7 @@ pub fn run(ctx: &Ctx) -> Report {
         st
     });
     total.merge(sp);
+    crate::fuzzrun::replay_policy_trees(&mut total, |t| judge(t, false));
     // interaction triples: three supported leaf kinds under every operator skeleton
     let tr = crate::combo::run_triples(ctx.seed, &crate::combo::supported_kinds(), ctx.tier.pick(32, 2), |t| judge(t, stable_hash(t) % 4 == 0), |t| case_json(t, stable_hash(t) % 4 == 0));
     total.merge(tr);
